@@ -27,6 +27,7 @@ import SlicecVerif.Lemmas.PermValidate
 import SlicecVerif.Lemmas.PermLints
 import SlicecVerif.Lemmas.PermIdent
 import SlicecVerif.Lemmas.PermElab
+import SlicecVerif.Lemmas.PermPipeline
 import SlicecVerif.Props.C04
 import SlicecVerif.Gen.HashUses
 
@@ -267,6 +268,140 @@ theorem early_rejection_order_independent (P P' : Program) (hp : P.Perm P') (h :
     (validate P).Perm (validate P') :=
   validate_perm_early P P' hp h
 
+/-! ## Part 4: the COMPLETE verdict (`validateFull`, Model/Pipeline.lean)
+
+`validate` is not the compiler's complete verdict: the parser's E017 for bases / underlying types that are not names, the alias
+gate (E019) and the interface-inheritance check (E032) of `detect_cycles` are phases of `validateFull` only. Their models (C05)
+number aliases, anonymous types and interfaces by POSITION in AST order, which a permutation of the files changes; the
+theorems below show that their verdicts do not. -/
+
+/-- the shape check is per file: its codes — with the other parse-time codes — are permuted with the files (no side condition) -/
+theorem parse_phase_full_order_independent (P P' : Program) (hp : P.Perm P') : (parseCodesFull P).Perm (parseCodesFull P') :=
+  parseCodesFull_perm hp
+
+/-- **the inheritance check, position-free.** With pairwise distinct definition keys, the inheritance graph on positions
+    (`Cyc.igraphOfProgram`, what `check_interface_for_inheritance_cycles` is modelled on) has a loop exactly when the graph
+    on KEYS has one — `b` is a step from `a` when `b` is the scoped name of an interface a base of the interface named `a`
+    denotes (`Validate.directBases`, the by-name graph the shadowing rule walks). -/
+theorem inheritance_loop_iff_key_loop (P : Program) (hnd : ((allDefs P).map defKey).Nodup) :
+    (∃ i, Cyc.EReach (Cyc.igEdges (Cyc.igraphOfProgram P)) i i) ↔ ∃ a, KReach (BaseStep P) a a :=
+  igraph_loop_iff_key_loop P hnd
+
+/-- … and the graph on keys is the same relation for every order of the files: the inheritance check reports nothing in one
+    order exactly when it reports nothing in the other. -/
+theorem inheritance_check_order_independent (P P' : Program) (hp : P.Perm P') (hu : UniqueKeys P)
+    (hnd : ((allDefs P).map defKey).Nodup) :
+    Cyc.ifaceLoopErrors (Cyc.igraphOfProgram P) = [] ↔ Cyc.ifaceLoopErrors (Cyc.igraphOfProgram P') = [] :=
+  ifaceLoop_nil_perm P P' hp hu hnd
+
+/-- **the alias gate, position-free.** In a program `validate` accepts, `revisits_anonymous_type` reports no alias exactly
+    when the flattening descent into the underlying type of every alias definition ends (`trefWithin`: through the written
+    anonymous types and, where a name resolves through aliases to a written type, on into that type — a function of the
+    name table only, no positions). "Silent ⇒ the descent is bounded" is C08's `accepted_descent_is_bounded`; the converse —
+    a reachable cycle of anonymous types carries walks of every length, and the descent follows every walk — is new. -/
+theorem alias_gate_iff_descent_ends (P : Program) (hacc : validate P = []) :
+    Cyc.aliasGateErrors P = [] ↔ ∀ a ∈ Cyc.aliasDefs P, ∃ F, trefWithin (buildTable P) a.2.1 F a.2.2 = true :=
+  gate_silent_iff_bounded P hacc
+
+/-- … and the descent is the same function on the tables of both orders: the alias gate is silent in one order exactly when it
+    is silent in the other (programs `validate` accepts — in one order, hence in both). -/
+theorem alias_gate_order_independent (P P' : Program) (hp : P.Perm P') (hu : UniqueKeys P) (hacc : validate P = []) :
+    Cyc.aliasGateErrors P = [] ↔ Cyc.aliasGateErrors P' = [] :=
+  aliasGate_nil_perm P P' hp hu hacc ((verdict_order_independent P P' hp hu).mp hacc)
+
+/-- **the complete verdict does not depend on the order of the files**, under the side condition `UniqueKeys`. -/
+theorem verdict_full_order_independent (P P' : Program) (hp : P.Perm P') (hu : UniqueKeys P) :
+    validateFull P = [] ↔ validateFull P' = [] :=
+  ⟨validateFull_nil_perm P P' hp hu, validateFull_nil_perm P' P hp.symm (hu.perm hp)⟩
+
+/-- **the complete verdict does not depend on the order of the files — no side condition**: for every program whose names are
+    identifiers (everything a source text can denote) and every order of its files, the complete front end — parser checks
+    incl. the shape of bases and underlying types, attribute patching, resolution, alias gate, inheritance and containment
+    cycles, redefinitions, validating visitor — accepts in one order exactly when it accepts in the other. -/
+theorem verdict_full_order_independent_of_identifiers (P P' : Program) (hp : P.Perm P') (hid : IdentNames P) :
+    validateFull P = [] ↔ validateFull P' = [] := by
+  constructor
+  · intro h
+    exact validateFull_nil_perm P P' hp (accepted_programs_have_unique_keys P hid (C04.accepted_full_accepted P h)) h
+  · intro h
+    exact validateFull_nil_perm P' P hp.symm
+      (accepted_programs_have_unique_keys P' (hid.perm hp) (C04.accepted_full_accepted P' h)) h
+
+/-- the same on the specification side (C04 `accept_iff_full`) -/
+theorem wellFormedFull_order_independent (P P' : Program) (hp : P.Perm P') (hid : IdentNames P) :
+    WellFormedFull P ↔ WellFormedFull P' := by
+  rw [← C04.accept_iff_full, ← C04.accept_iff_full]
+  exact verdict_full_order_independent_of_identifiers P P' hp hid
+
+/-- **the second sentence of the property for the complete front end.** For every program whose names are identifiers, every
+    order `P'` of its files and every list `cli` of `--allow` values: the complete verdict is the same, and for an accepted
+    program every file's compiled content and the multiset of warnings (each with its file and emitted level) are. -/
+theorem input_order_independent_full (cli : List String) (P P' : Program) (hp : P.Perm P') (hid : IdentNames P) :
+    (validateFull P = [] ↔ validateFull P' = []) ∧
+    (validateFull P = [] →
+      (∀ f, fileS (buildTable P) f = fileS (buildTable P') f) ∧
+      ((lintSites P).map fun s => (s.located P, emittedLevel cli P s)).Perm
+        ((lintSites P').map fun s => (s.located P', emittedLevel cli P' s))) :=
+  ⟨verdict_full_order_independent_of_identifiers P P' hp hid,
+   fun h => ((input_order_independent cli P P' hp hid).2 (C04.accepted_full_accepted P h))⟩
+
+/-- **what the alias gate reports, alias by alias, position-free.** In a program whose alias keys are pairwise distinct and
+    whose references resolve — accepted or not —, the number of E019 diagnostics of the alias gate is the number of alias
+    definitions into whose underlying type the flattening descent does not end. -/
+theorem alias_gate_count_position_free (P : Program) (hnd : ((allDefs P).map defKey).Nodup) (hr : resolveCodes P = []) :
+    (Cyc.aliasGateErrors P).length =
+      (Cyc.aliasDefs P).countP fun al =>
+        @decide (¬ ∃ F, trefWithin (buildTable P) al.2.1 F al.2.2 = true) (Classical.propDecidable _) := by
+  rw [aliasGateErrors_length_k P (aliasKeys_nodup_of_defKeys P hnd) (refsOK_of_resolveCodes P hr)]
+  apply List.countP_congr
+  intro al _
+  simp only [decide_eq_true_eq]
+
+/-- … so the alias gate reports the same NUMBER of aliases in every order of the files (it is only reached when the
+    references resolve, which then holds in both orders). -/
+theorem alias_gate_count_order_independent (P P' : Program) (hp : P.Perm P') (hu : UniqueKeys P)
+    (hnd : ((allDefs P).map defKey).Nodup) (hr : resolveCodes P = []) :
+    (Cyc.aliasGateErrors P).length = (Cyc.aliasGateErrors P').length :=
+  aliasGateErrors_length_perm P P' hp hu hnd hr (by
+    have h := resolveCodes_perm P P' hp hu
+    rw [hr] at h
+    exact (List.Perm.nil_eq h).symm)
+
+/-- the inheritance check reports the same NUMBER of interfaces in every order: the interface definitions whose key lies on a
+    loop of the graph on keys -/
+theorem inheritance_count_order_independent (P P' : Program) (hp : P.Perm P') (hu : UniqueKeys P)
+    (hnd : ((allDefs P).map defKey).Nodup) :
+    (Cyc.ifaceLoopErrors (Cyc.igraphOfProgram P)).length = (Cyc.ifaceLoopErrors (Cyc.igraphOfProgram P')).length :=
+  ifaceLoopErrors_length_perm P P' hp hu hnd
+
+/-- the multiset of codes of the complete pipeline under `UniqueKeys` ALONE — FULL STATEMENT, not proved. `UniqueKeys` allows
+    two definitions of ONE file to share their key (`typealias A = …` twice in a file); C05's models of the alias gate and
+    of the inheritance check identify definitions by position AND by key (`idxOf`: the first definition with the key), and
+    for such programs the position-free characterisations used below are not available ("programs whose type names are
+    unique" is the stated domain of C05). The property does not speak of the codes of a rejected program. -/
+def error_codes_full_order_independent : Prop :=
+  ∀ P P' : Program, P.Perm P' → UniqueKeys P → (validateFull P).Perm (validateFull P')
+
+/-- **the error codes of the complete pipeline** — what is proved of the statement above: with, in addition, pairwise
+    distinct definition keys (`((allDefs P).map defKey).Nodup`, decidable; part of `DistinctDefinitions`), the codes reported for
+    the permuted program are a permutation of the codes reported for the original: the same phase is the first to report —
+    parser checks incl. the shape of bases / underlying types, attributes, resolution, alias gate, inheritance + containment
+    cycles, redefinitions, visitor — and it reports the same codes the same number of times. -/
+theorem error_codes_full_order_independent_partial (P P' : Program) (hp : P.Perm P') (hu : UniqueKeys P)
+    (hnd : ((allDefs P).map defKey).Nodup) : (validateFull P).Perm (validateFull P') :=
+  validateFull_perm P P' hp hu hnd
+
+/-- … in particular for programs whose names are identifiers and whose definitions are distinct (`DistinctDefinitions`) -/
+theorem error_codes_full_order_independent_of_distinct_definitions (P P' : Program) (hp : P.Perm P') (hid : IdentNames P)
+    (h : DistinctDefinitions P) : (validateFull P).Perm (validateFull P') :=
+  validateFull_perm P P' hp (uniqueKeys_of_distinct_definitions P hid h) h.2.1
+
+/-- … hence the same set of codes and the same `codes` projection string the `compile` engine compares -/
+theorem codes_projection_full_order_independent (P P' : Program) (hp : P.Perm P') (hu : UniqueKeys P)
+    (hnd : ((allDefs P).map defKey).Nodup) :
+    (∀ c, c ∈ validateFull P ↔ c ∈ validateFull P') ∧ codesProjection (validateFull P) = codesProjection (validateFull P') :=
+  ⟨fun _ => (validateFull_perm P P' hp hu hnd).mem_iff, codesProjection_perm_eq (validateFull_perm P P' hp hu hnd)⟩
+
 /-! ## what happens without `UniqueKeys` -/
 
 def mkFile (m : String) (defs : List Def) : SFile := { fileAttrs := [], module := some ⟨[], m⟩, defs := defs }
@@ -406,6 +541,37 @@ example :
     (lintSites [f3, f1, f2]).map (fun s => (s.kind, s.file, s.scope)) = [("Deprecated", 0, some "N::B::y"), ("Deprecated", 2, some "M::A::x")] := by
   refine ⟨by decide, by decide +kernel, by decide +kernel⟩
 
+/-! ### the complete verdict -/
+
+/-- `module M  interface A : B {}` / `module M  interface B : A {}`: an inheritance loop across two files -/
+def loopFiles : List SFile :=
+  [mkFile "M" [.iface [] [] "A" [.mk [] (.named "B") false] []], mkFile "M" [.iface [] [] "B" [.mk [] (.named "A") false] []]]
+/-- `module M  typealias A = Sequence<N::B>` / `module N  typealias B = Dictionary<int32, M::A>`: an alias loop across two files -/
+def aliasLoopFiles : List SFile :=
+  [mkFile "M" [.alias [] [] "A" (.mk [] (.seq (.mk [] (.named "N::B") false)) false)],
+   mkFile "N" [.alias [] [] "B" (.mk [] (.dict (.mk [] (.prim .int32) false) (.mk [] (.named "M::A") false)) false)]]
+
+/-- both are accepted by `validate` and rejected by the complete pipeline, in both orders, with the same codes -/
+example : validate loopFiles = [] ∧ validateFull loopFiles = [code "InfiniteSizeCycle", code "InfiniteSizeCycle"] ∧
+    validateFull loopFiles.reverse = [code "InfiniteSizeCycle", code "InfiniteSizeCycle"] := by
+  refine ⟨by decide +kernel, by decide +kernel, by decide +kernel⟩
+example : validate aliasLoopFiles = [] ∧
+    validateFull aliasLoopFiles = [code "SelfReferentialTypeAliasNeedsConcreteType", code "SelfReferentialTypeAliasNeedsConcreteType"] ∧
+    validateFull aliasLoopFiles.reverse = [code "SelfReferentialTypeAliasNeedsConcreteType", code "SelfReferentialTypeAliasNeedsConcreteType"] := by
+  refine ⟨by decide +kernel, by decide +kernel, by decide +kernel⟩
+/-- the three-file program above is accepted by the complete pipeline in one order, hence — by the theorem — in another -/
+example : validateFull [g3, g1, g2] = [] :=
+  (verdict_full_order_independent_of_identifiers [g1, g2, g3] [g3, g1, g2]
+    (List.perm_append_comm (l₁ := [g1, g2]) (l₂ := [g3])) (by decide)).mp (by decide +kernel)
+/-- the multiset theorem applied: the codes of the two loops agree in both orders without evaluating the second order -/
+example : (validateFull loopFiles).Perm (validateFull loopFiles.reverse) :=
+  error_codes_full_order_independent_partial _ _ (List.reverse_perm _).symm (by decide) (by decide +kernel)
+example : (validateFull aliasLoopFiles).Perm (validateFull aliasLoopFiles.reverse) :=
+  error_codes_full_order_independent_of_distinct_definitions _ _ (List.reverse_perm _).symm (by decide) (by decide +kernel)
+/-- the key-level inheritance graph of the loop: `M::A → M::B → M::A` -/
+example : KReach (BaseStep loopFiles) "M::A" "M::A" :=
+  .cons (b := "M::B") (by unfold BaseStep; decide +kernel) (.single (by unfold BaseStep; decide +kernel))
+
 end Slicec.C15
 
 #print axioms Slicec.C15.hash_uses_order_free
@@ -441,3 +607,18 @@ end Slicec.C15
 #print axioms Slicec.C15.unique_keys_needed_for_error_set
 #print axioms Slicec.C15.unique_keys_needed_for_error_set_cycle
 #print axioms Slicec.C15.unique_keys_needed_for_verdict_on_abstract_syntax
+#print axioms Slicec.C15.parse_phase_full_order_independent
+#print axioms Slicec.C15.inheritance_loop_iff_key_loop
+#print axioms Slicec.C15.inheritance_check_order_independent
+#print axioms Slicec.C15.alias_gate_iff_descent_ends
+#print axioms Slicec.C15.alias_gate_order_independent
+#print axioms Slicec.C15.verdict_full_order_independent
+#print axioms Slicec.C15.verdict_full_order_independent_of_identifiers
+#print axioms Slicec.C15.wellFormedFull_order_independent
+#print axioms Slicec.C15.input_order_independent_full
+#print axioms Slicec.C15.alias_gate_count_position_free
+#print axioms Slicec.C15.alias_gate_count_order_independent
+#print axioms Slicec.C15.inheritance_count_order_independent
+#print axioms Slicec.C15.error_codes_full_order_independent_partial
+#print axioms Slicec.C15.error_codes_full_order_independent_of_distinct_definitions
+#print axioms Slicec.C15.codes_projection_full_order_independent
